@@ -20,11 +20,11 @@ import (
 // writes; each All / Except / To write must reach exactly the channels that are open when it is made - the new
 // ones included, the excluded one excluded - whatever the previous write looked like.
 func TestC11FanOutAcrossReplacedChannels(t *testing.T) {
-	rec := evid.New(t, "C11", "3..4 custom transports; a generated sequence of 10..40 steps: WriteMessageAll, WriteMessageExcept(channel of link x) (often the same x several times in a row), WriteMessageTo(channel of link x), WriteFrameExcept, and 'link j drops and comes back' (one read error; the step waits for the fresh channel); each item must appear exactly once and in order on exactly the links whose current channel is addressed; an Except naming a channel that no longer exists reaches every link; non-trivial = two Except writes with the same exclusion around a replacement of another link; distinct by hash of the steps")
-	rec.Require("same-exclusion-before-and-after-another-link-was-replaced")
+	rec := evid.New(t, "C11", "1..4 custom transports; a generated sequence of 10..40 steps: WriteMessageAll, WriteMessageExcept(channel of link x) (often the same x several times in a row), WriteMessageTo(channel of link x), WriteFrameExcept, and 'link j drops and comes back' (one read error; the step waits for the fresh channel); each item must appear exactly once and in order on exactly the links whose current channel is addressed; an Except naming a channel that no longer exists reaches every link; non-trivial = two Except writes with the same exclusion around a replacement of another link; distinct by hash of the steps")
+	rec.Require("same-exclusion-before-and-after-another-link-was-replaced", "exclusion-naming-no-open-channel-on-a-node-with-one-link")
 	evid.Check(t, rec, evid.N(60, 300), func(t *rapid.T) {
 		drawNodeInit(t)
-		nl := rapid.IntRange(3, 4).Draw(t, "links")
+		nl := rapid.SampledFrom([]int{1, 2, 3, 3, 4, 4}).Draw(t, "links")
 		type step struct {
 			op   string
 			link int
@@ -33,7 +33,7 @@ func TestC11FanOutAcrossReplacedChannels(t *testing.T) {
 		ns := rapid.IntRange(10, 40).Draw(t, "steps")
 		lastEx := -1
 		for i := 0; i < ns; i++ {
-			s := step{op: rapid.SampledFrom([]string{"all", "except", "except", "except", "frame-except", "to", "flap", "flap", "except-closed"}).Draw(t, "op"), link: rapid.IntRange(0, nl-1).Draw(t, "link")}
+			s := step{op: rapid.SampledFrom([]string{"all", "except", "except", "except", "frame-except", "to", "flap", "flap", "except-closed", "except-nil"}).Draw(t, "op"), link: rapid.IntRange(0, nl-1).Draw(t, "link")}
 			if (s.op == "except" || s.op == "frame-except") && lastEx >= 0 && rapid.IntRange(0, 2).Draw(t, "same_exclusion_again") > 0 {
 				s.link = lastEx
 			}
@@ -71,6 +71,7 @@ func TestC11FanOutAcrossReplacedChannels(t *testing.T) {
 		want := make([][]int, nl)
 		counter := 0
 		lastExcept, flappedSince, covered := -1, false, false
+		oneLeft := false
 		for si, s := range steps {
 			switch s.op {
 			case "flap":
@@ -140,6 +141,14 @@ func TestC11FanOutAcrossReplacedChannels(t *testing.T) {
 				for i := range pipes {
 					targets = append(targets, i)
 				}
+				oneLeft = oneLeft || nl == 1
+			case "except-nil":
+				// an exclusion that names no channel excludes none
+				err = n.WriteMessageExcept(nil, m)
+				for i := range pipes {
+					targets = append(targets, i)
+				}
+				oneLeft = oneLeft || nl == 1
 			case "to":
 				err = n.WriteMessageTo(cur[s.link], m)
 				targets = []int{s.link}
@@ -179,6 +188,9 @@ func TestC11FanOutAcrossReplacedChannels(t *testing.T) {
 		var cls []string
 		if covered {
 			cls = append(cls, "same-exclusion-before-and-after-another-link-was-replaced")
+		}
+		if oneLeft {
+			cls = append(cls, "exclusion-naming-no-open-channel-on-a-node-with-one-link")
 		}
 		rec.Case(covered, evid.HashS(desc), cls...)
 		if covered && rec.WantSample("replaced") {
